@@ -423,7 +423,7 @@ func (rc *RunCtx) processFindings() {
 			confirmed, detail = rc.confirm(set, f, path)
 		}
 		what := fmt.Sprintf("%s %s at %s tags=%v input=%s", f.Kind, f.ID, shortSite(f.Site), sortedTagList(f.Tags), RenderVector(f.Replay))
-		if !confirmed && (engineOnly || f.Sched) && f.Kind != "unwind" {
+		if !confirmed && (engineOnly || f.Sched) && f.Kind != "unwind" && f.Kind != "race" {
 			// schedule / stub dependent: the path is deterministic in the engine (decision list recorded); native replay cannot force it
 			what += " (schedule/stub dependent: reproduced by deterministic re-execution in the engine only)"
 			confirmed = true
@@ -469,7 +469,22 @@ func (rc *RunCtx) confirm(set string, f *sym.Finding, path string) (bool, string
 	if f.Kind == "unwind" {
 		limit = 4 * time.Second
 	}
-	o, err := rc.St.ReplayFile(set, path, limit, f.Kind == "race")
+	if f.Kind == "race" {
+		// the native race detector needs the two accesses to actually overlap within its window: repeat a few times
+		var last *ReplayOutcome
+		for i := 0; i < 12; i++ {
+			o, err := rc.St.ReplayFileEnv(set, path, limit, true, "VSYM_NETNS=1")
+			if err != nil {
+				return false, err.Error()
+			}
+			last = o
+			if o.Race {
+				return true, ""
+			}
+		}
+		return false, last.Summary()
+	}
+	o, err := rc.St.ReplayFile(set, path, limit, false)
 	if err != nil {
 		return false, err.Error()
 	}
